@@ -79,24 +79,11 @@ def clause_engine_reorg(R, F, CG):
     # accepted *whenever* the target is not above the tip and inside the window: every refusal decision of engine.reorg is one
     # of the documented ones (block under construction, above the tip, outside the window) or a propagated error of a callee
     known = {found[k][0] for k in ("above", "deep") if found[k]}
-    from terms import bool_edge
-    for b in range(len(fn.blocks)):
-        t = fn.term(b)
-        if t["k"] != "switch" or fn.is_cleanup(b) or b in known:
-            continue
-        succs = fn.succ(b)
-        rej = [sx for sx in succs if sx in eb or _leads_to_error_only(fn, sx)]
-        if not rej or len(rej) == len(succs):
-            continue
-        d = origin(fn, t["discr"])
-        # `?` on a callee's Result (validator, height lookup, db write): the callee decides, not this function
-        if mentions(d, "branch") and d[0] == "discr":
-            continue
-        if mentions(d, "waiting_tx_count"):
-            continue
-        R.violation("GUARD", "%s:%s" % (fn.loc["f"], t.get("loc", {}).get("l")), "GUARD|engine.reorg|unexpected-refusal",
+    from tablerules import unexpected_refusals
+    for (ln, cond) in unexpected_refusals(fn, known_blocks=known, allow=lambda dd: mentions(dd, "waiting_tx_count")):
+        R.violation("GUARD", "%s:%s" % (fn.loc["f"], ln), "GUARD|engine.reorg|unexpected-refusal",
                     "engine.reorg refuses on a condition the contract does not give (`%s`): a reorg to a height that is not above the tip and "
-                    "inside the window must be accepted" % show(d)[:90])
+                    "inside the window must be accepted" % cond)
 
 
 def _err_propagated(fn, call):
